@@ -30,6 +30,23 @@ Definition doc_base : str := lit "http://api.openstreetmap.org/api/0.6".
 Definition spec_base (configured : str) : str :=
   match configured with [] => doc_base | _ => configured end.
 
+(* the configured bases the statements are about: an absolute http(s) URL with a host, made of
+   characters net/url sends unchanged (RFC 3986 unreserved / sub-delims / ":" "@" "/" and
+   well-formed percent escapes), hence without query, fragment, spaces, control or non-ASCII
+   characters; or none (the package default) *)
+Definition wf_char (a : ascii) : bool :=
+  is_alnum a || existsb (Ascii.eqb a) (lit "-._~:/@!$&'()*+,;=%").
+
+Definition base_wf (cfg : str) : bool :=
+  match cfg with
+  | [] => true
+  | _ =>
+      match http_rest cfg with
+      | Some (h :: _) => negb (Ascii.eqb h "/") && forallb wf_char cfg && negb (bad_percent cfg)
+      | _ => false
+      end
+  end.
+
 Definition ename (e : elem) : str :=
   match e with Node => lit "node" | Way => lit "way" | Relation => lit "relation" end.
 Definition fname (e : full_elem) : str :=
@@ -58,15 +75,65 @@ Definition spec_path (ep : endpoint) : str :=
   end.
 
 (* a decoded query value is either a text or a bounding box read as four numbers *)
-Inductive qval := QText (s : str) | QBBox (b : bounds).
+Inductive qval := QText (s : str) | QBBox (b : bounds) | QTime (unix : Z).
 
-(* 2006-01-02T15:04:05Z in UTC *)
-Definition iso8601 (unix : Z) : str :=
-  let c := civil_of_unix unix in
-  zpad 4 (c_year c) ++ lit "-" ++ zpad 2 (c_month c) ++ lit "-" ++ zpad 2 (c_day c) ++ lit "T" ++
-  zpad 2 (c_hour c) ++ lit ":" ++ zpad 2 (c_min c) ++ lit ":" ++ zpad 2 (c_sec c) ++ lit "Z".
+(* ---------- the time of the at= parameter: the specification's own calendar ----------
 
-Definition at_param (o : fopt) : str * qval := match o with At t => (lit "at", QText (iso8601 t)) end.
+   Independent of the model's formatter (Text.civil_of_unix / fmt_time): the specification READS
+   the transmitted text 2006-01-02T15:04:05Z, checks that it names a date of the proleptic
+   Gregorian calendar, and counts the seconds from 1970-01-01T00:00:00Z to it with the textbook
+   day count (whole years, leap days every 4th year except centuries not divisible by 400,
+   month lengths).  No inverse (seconds -> date) is defined here. *)
+
+Definition is_leap (y : Z) : bool :=
+  (y mod 4 =? 0) && (negb (y mod 100 =? 0) || (y mod 400 =? 0)).
+
+Definition days_in_month (y m : Z) : Z :=
+  if m =? 2 then (if is_leap y then 29 else 28)
+  else if (m =? 4) || (m =? 6) || (m =? 9) || (m =? 11) then 30 else 31.
+
+(* leap years among the years 1 .. y *)
+Definition leaps_upto (y : Z) : Z := y / 4 - y / 100 + y / 400.
+
+(* days from 1970-01-01 to the first day of year y *)
+Definition days_before_year (y : Z) : Z := 365 * (y - 1970) + (leaps_upto (y - 1) - leaps_upto 1969).
+
+Definition days_before_month (y m : Z) : Z :=
+  fold_left (fun acc k => acc + days_in_month y k) (map Z.of_nat (seq 1 (Z.to_nat (m - 1)))) 0.
+
+Definition days_from_civil (y m d : Z) : Z := days_before_year y + days_before_month y m + (d - 1).
+
+Definition valid_date (y m d : Z) : bool := (1 <=? m) && (m <=? 12) && (1 <=? d) && (d <=? days_in_month y m).
+
+Definition unix_of_civil (y m d hh mi ss : Z) : Z :=
+  days_from_civil y m d * 86400 + hh * 3600 + mi * 60 + ss.
+
+Definition dig (a : ascii) : option Z := if is_digit a then Some (code a - 48) else None.
+
+Definition num2 (a b : ascii) : option Z :=
+  match dig a, dig b with Some x, Some y => Some (10 * x + y) | _, _ => None end.
+Definition num4 (a b c d : ascii) : option Z :=
+  match num2 a b, num2 c d with Some x, Some y => Some (100 * x + y) | _, _ => None end.
+
+(* YYYY-MM-DDTHH:MM:SSZ naming the instant [unix] (UTC, no leap seconds) *)
+Definition time_text_ok (unix : Z) (s : str) : bool :=
+  match s with
+  | [y1; y2; y3; y4; d1; m1; m2; d2; a1; a2; t; h1; h2; c1; i1; i2; c2; s1; s2; z] =>
+      Ascii.eqb d1 "-" && Ascii.eqb d2 "-" && Ascii.eqb t "T" && Ascii.eqb c1 ":" && Ascii.eqb c2 ":" &&
+      Ascii.eqb z "Z" &&
+      match num4 y1 y2 y3 y4, num2 m1 m2, num2 a1 a2, num2 h1 h2, num2 i1 i2, num2 s1 s2 with
+      | Some y, Some m, Some d, Some hh, Some mi, Some ss =>
+          valid_date y m d && (hh <? 24) && (mi <? 60) && (ss <? 60) &&
+          (unix_of_civil y m d hh mi ss =? unix)
+      | _, _, _, _, _, _ => false
+      end
+  | _ => false
+  end.
+
+(* the instants that have such a text: years 0000 .. 9999 *)
+Definition time_in_range (unix : Z) : bool := (-62167219200 <=? unix) && (unix <=? 253402300799).
+
+Definition at_param (o : fopt) : str * qval := match o with At t => (lit "at", QTime t) end.
 Definition note_param (o : nopt) : str * qval :=
   match o with
   | Limit n => (lit "limit", QText (dec n))
@@ -83,6 +150,15 @@ Definition spec_query (ep : endpoint) : list (str * qval) :=
   | Notes b o => (lit "bbox", QBBox b) :: map note_param o
   | NotesSearch q o => (lit "q", QText q) :: map note_param o
   | Version _ _ _ | History _ _ | Changeset _ | ChangesetDownload _ | Note _ | User _ => []
+  end.
+
+(* the at= times have a text of the documented form: years 0000 .. 9999 *)
+Definition fopt_in_range (o : fopt) : bool := match o with At t => time_in_range t end.
+Definition times_in_range (ep : endpoint) : bool :=
+  match ep with
+  | Get _ _ o | NodeWays _ o | RelationsOf _ _ o | Full _ _ o | Multi _ _ o | Map _ o =>
+      forallb fopt_in_range o
+  | _ => true
   end.
 
 (* documented validity of options: limit in [1, 10000] *)
@@ -126,7 +202,11 @@ Definition bbox_text_ok (strict : bool) (b : bounds) (s : str) : bool :=
   end.
 
 Definition qval_ok (strict : bool) (v : qval) (s : str) : bool :=
-  match v with QText t => str_eqb t s | QBBox b => bbox_text_ok strict b s end.
+  match v with
+  | QText t => str_eqb t s
+  | QBBox b => bbox_text_ok strict b s
+  | QTime t => time_text_ok t s
+  end.
 
 Fixpoint query_ok (strict : bool) (spec : list (str * qval)) (got : list (str * str)) : bool :=
   match spec, got with
